@@ -53,6 +53,34 @@ Check C18_finite :
     exists ps, paths_for_node filt (paths_fuel (gr_arena (gs_graph s))) s id [] = Ok ps.
 Print Assumptions C18_finite.
 
+(* Completeness, depth 0: in a note to which the index (as read by the variant) has no block
+   reference, every heading — `heading_has_chain`: every heading has its chain of ancestors
+   [top-level heading; ...; h] — is the last element of a listed path, namely that chain.
+   Hypotheses: prev links point backward, and graph_to_paths returned (it panics on arenas
+   with orphaned sections).  Completeness across block references (C18_complete_rooted) is
+   not proved; it is evaluated on every run's observations. *)
+Theorem C18_complete_unreferenced :
+  forall filt s, bwd (gr_arena (gs_graph s)) ->
+  forall ps h q d k,
+    graph_to_paths filt s = Ok ps -> hchain s h q d -> doc s d k -> path_refs filt s k = Ok [] ->
+    In q ps /\ lastn q = Some h.
+Proof. exact complete_unreferenced. Qed.
+
+Check C18_complete_unreferenced :
+  forall filt s, bwd (gr_arena (gs_graph s)) ->
+  forall ps h q d k,
+    graph_to_paths filt s = Ok ps -> hchain s h q d -> doc s d k -> path_refs filt s k = Ok [] ->
+    In q ps /\ lastn q = Some h.
+Print Assumptions C18_complete_unreferenced.
+
+Theorem C18_heading_has_chain :
+  forall s h, heading s h -> exists q d, hchain s h q d.
+Proof. exact heading_hchain. Qed.
+
+Check C18_heading_has_chain :
+  forall s h, heading s h -> exists q d, hchain s h q d.
+Print Assumptions C18_heading_has_chain.
+
 (* Search: whatever the paths and the fuzzy scores (the matcher is an oracle), global_search
    returns at most 100 entries, they are the first 100 of a permutation of all scored paths
    that is sorted by the comparator of database.rs, and for the empty query the reference
